@@ -356,4 +356,40 @@ theorem inv8_step {fp : FdlParams} (hfp : FpOk fp) {g g' : G} (hI : Inv fp g) (h
               exact hA
 
 
+/-- What is known when a request goes out to slot `i`: the peripheral `p` that sent it (slot `i` of
+the state before the poll, up to `retry_count`, which declines of other polls do not touch here),
+its ghost invariant, and the closed form of its `transmit_telegram`. -/
+theorem send_step {fp : FdlParams} (hfp : FpOk fp) {g g' : G} (hI : Inv fp g) (h8 : Inv8 g)
+    {now : Int} {hp : Bool} (h : gstep fp g (.tx now hp) = .ok g')
+    {i : Nat} {hd : Header} {pdu : Bytes} (ho : g'.o = .sent i hd pdu) :
+    ∃ p p' p0, g.m.slots[i]? = some (some p0) ∧ p = { p0 with retry := p.retry } ∧
+      J8 (g.sg i) p ∧ PInv fp p ∧ TxSpec fp .operate p (.send p' hd pdu) ∧
+      g'.sg i = sgSend hd p' (g.sg i) ∧ g'.out = some p0.address := by
+  cases tx_form hfp hI h with
+  | gc => cases ho
+  | idle => cases ho
+  | off => cases ho
+  | send m1 j p p' h' pdu' hD hM1 hc hts _ =>
+    simp only [Out.sent.injEq] at ho
+    obtain ⟨rfl, rfl, rfl⟩ := ho
+    have hj := cur_slot hc
+    obtain ⟨p0, hp0, hsame⟩ := decSlot_back (hD.slot j) hj
+    have h1 := declined_pres hD (fun i p => J8 (g.sg i) p) (fun i p hJ ht => j8_decline hJ ht) h8.slot
+    refine ⟨p, p', p0, hp0, hsame, h1 j p hj, hM1.pinv j p hj, hts, by simp [G.upd], ?_⟩
+    simp only [Option.some.injEq]
+    rw [hsame]
+
+
+theorem reqKind_diag_saps {h : Header} (hk : reqKind h = .diag) : h.dsap = some 60 ∧ h.ssap = some 62 := by
+  unfold reqKind at hk
+  split at hk
+  · split at hk
+    · assumption
+    · split at hk
+      · cases hk
+      · split at hk <;> cases hk
+  · split at hk <;> cases hk
+  · cases hk
+
+
 end PV.Dp
